@@ -8,6 +8,7 @@ func init() {
 		c.Clause("every lock is released on every exit; no may-panic call between a non-deferred Lock and its Unlock")
 		c.Clause("WaitGroup.Add for probe goroutines is joinable by Stop")
 		c.Clause("an object put back into a sync.Pool is not used afterwards on any path (deferred calls in the order they run)")
+		c.Clause("snapshots handed to readers (metrics, listings) are copies that share no mutable storage with the guarded original; no lock is held across a write to a client connection (a stalled client would block every writer of that lock)")
 		c.NotDecided("races through aliases the field-based analysis cannot see (cfg.LoadBalancer.Strategy written by SetStrategy); races inside third-party code; deadlocks that need a specific blocking I/O pattern — this is a lint-grade race analysis, not a proof of race freedom")
 		lockDiscipline(c, nil)
 		lockPairing(c, nil)
